@@ -140,6 +140,13 @@ def defer_recorded(F, rep, rule="DEFER-RECORDED"):
                     cn = tc.constraint_name(c["args"][2])
                     con = peel(c["args"][2])
                     payload = tc.local_hid(con["args"][0]) if con.get("k") == "Call" and con.get("args") else None
+                    if node is not None and cn not in dispatch.get(name, ()) and cn in {c_ for v_ in dispatch.values() for c_ in v_}:
+                        # what this checker postpones is handed to *another* checker when it is replayed
+                        others_ = sorted(k_ for k_, v_ in dispatch.items() if cn in v_)
+                        rep.ob(rule, "%s|unknown-arm|%s|replayed-as-postponed" % (name, cn), False,
+                               "TypeChecker::%s postpones its check by recording Constraint::%s, but check_constraints replays that constraint "
+                               "with %s, not with %s: the check that was postponed is never made (`a / 2 + \"x\"` inside a function called "
+                               "with an int later: the quotient is never settled to float)" % (name, cn, "/".join(others_), name), line_of(c))
                     if node is not None and cn in dispatch.get(name, ()):
                         recorded[node] = payload
                         # the deferred check must be the check that was postponed: same checker, same operand roles
